@@ -8,6 +8,7 @@ import (
 	"testing"
 
 	"github.com/hyperjumptech/grule-rule-engine/ast"
+	"github.com/hyperjumptech/grule-rule-engine/builder"
 	"github.com/hyperjumptech/grule-rule-engine/pkg"
 	"pgregory.net/rapid"
 
@@ -341,6 +342,49 @@ func c17Check(old []*gast.Rule, text string, st *facts.State) (v []string, verdi
 					if !sinkEqual(before[n], after[n]) {
 						v = append(v, fmt.Sprintf("batch entry point: after the rejected second resource rule %s of the first one behaves differently: alone match=%v sink=%v, now match=%v sink=%v", n, before[n].Match, before[n].Sink, after[n].Match, after[n].Sink))
 					}
+				}
+			}
+		}
+	}
+	// one builder value for both resources, with the library entry replaced by its own stored image in between
+	// (a hot reload): the outcome for the text is the same, and the accepted rules are in the library's knowledge base
+	if len(old) > 0 && len(text) < 4096 && len(v) == 0 {
+		libL := ast.NewKnowledgeLibrary()
+		rb := builder.NewRuleBuilder(libL)
+		build := func(t string) (err error, pan interface{}) {
+			defer func() {
+				if r := recover(); r != nil {
+					pan = r
+				}
+			}()
+			return rb.BuildRuleFromResource(obs.KBName, obs.KBVersion, pkg.NewBytesResource([]byte(t))), nil
+		}
+		if e, p := build(oldText); e != nil || p != nil {
+			return nil, verdict, fmt.Errorf("old rules do not build with a builder of their own: %v %v", e, p)
+		}
+		var img bytes.Buffer
+		if err := storeKB(libL, &img); err != nil {
+			return nil, verdict, fmt.Errorf("store of the old rules failed: %v", err)
+		}
+		if _, lerr, lpan := loadKB(img.Bytes(), libL, true); lerr != nil || lpan != nil {
+			return nil, verdict, fmt.Errorf("reload of the old rules failed: %v %v", lerr, lpan)
+		}
+		berrL, panL := build(text)
+		switch {
+		case panL != nil:
+			v = append(v, fmt.Sprintf("BuildRuleFromResource on a builder used before panicked (%v); the text is %s (%s)", panL, verdict.V, verdict.Reason))
+		case (berrL == nil) != (berr == nil):
+			v = append(v, fmt.Sprintf("a builder that built the earlier resource, with the library entry reloaded from its stored image in between, returned %v for the text; a new builder returned %v", berrL, berr))
+		case berrL == nil && verdict.V == recog.Accept:
+			kbL := libL.GetKnowledgeBase(obs.KBName, obs.KBVersion)
+			for _, ri := range verdict.Rules {
+				if e, ok := kbL.RuleEntries[ri.Name]; !ok || e.Deleted {
+					v = append(v, fmt.Sprintf("accepted text (builder used before, library entry reloaded in between): rule %s is not in the library's knowledge base", ri.Name))
+				}
+			}
+			for _, n := range oldNames {
+				if e, ok := kbL.RuleEntries[n]; !ok || e.Deleted {
+					v = append(v, fmt.Sprintf("accepted text (builder used before, library entry reloaded in between): rule %s loaded before is no longer in the library's knowledge base", n))
 				}
 			}
 		}
